@@ -28,6 +28,10 @@ pub struct Case {
     pub blocking: u64,
     pub limit: LimitMode,
     pub wrap: Wrap,
+    /// added to the tasks' floating non-preemptive region lengths: in the equations these are free
+    /// parameters of the interfering tasks (they may exceed the WCET, e.g. for multiframe tasks)
+    #[serde(default)]
+    pub np_boost: Vec<u64>,
 }
 
 pub fn analysis_strategy() -> BoxedStrategy<Analysis> {
@@ -59,10 +63,11 @@ fn strategy(tier: Tier) -> BoxedStrategy<Case> {
             2 => (1u64..400).prop_map(LimitMode::Absolute),
         ],
         wrap_strategy(),
+        prop_oneof![3 => Just(vec![]), 1 => proptest::collection::vec(prop_oneof![1 => Just(0u64), 2 => 1u64..10], 4)],
     )
-        .prop_map(|(tasks, tua, analysis, blocking, limit, wrap)| {
+        .prop_map(|(tasks, tua, analysis, blocking, limit, wrap, np_boost)| {
             let tua = tua % tasks.len();
-            Case { tasks, tua, analysis, blocking, limit, wrap }
+            Case { tasks, tua, analysis, blocking, limit, wrap, np_boost }
         })
         .boxed()
 }
@@ -187,7 +192,11 @@ pub const TMAX: u64 = 2500;
 
 fn check(c: &Case) -> CheckResult {
     let mut out = Outcome::default();
-    let ts = &c.tasks;
+    let mut boosted = c.tasks.clone();
+    for (t, b) in boosted.iter_mut().zip(c.np_boost.iter()) {
+        t.max_np += b;
+    }
+    let ts = &boosted;
     // the analysed task releases at least one job; segment parameters within the WCET
     let b = guard(|| build_tasks(ts)).map_err(|e| format!("constructing the task set panicked: {}", e))?;
     let t = tabulate(&b, TMAX + 2).map_err(|e| format!("tabulating the RBFs panicked: {}", e))?;
@@ -237,6 +246,7 @@ fn check(c: &Case) -> CheckResult {
     out.label_if(exp.res.ok().is_some() && exp.max_af == limit, "limit=maxAF");
     out.label_if(exp.l.map(|l| t.tab[c.tua][l as usize] >= 2 * ts[c.tua].wcet).unwrap_or(false), ">=2-jobs-of-tua-in-L");
     out.label_if(ts[c.tua].arr.has_jitter() || ts[c.tua].arr.has_burst(), "tua-jitter-or-burst");
+    out.label_if(c.np_boost.iter().any(|b| *b > 0) && matches!(c.analysis, Analysis::EdfFl), "np-region-longer-than-wcet");
     out.label(c.analysis.name());
     Ok(out)
 }
@@ -257,7 +267,8 @@ pub fn decode(d: &mut crate::dec::Dec) -> Case {
         _ => LimitMode::Absolute(d.range(1, 400)),
     };
     let wrap = [Wrap::Plain, Wrap::Boxed, Wrap::Refs][d.pick(3)];
-    Case { tasks, tua, analysis, blocking, limit, wrap }
+    let np_boost = if d.pick(4) == 0 { d.vec(4, 4, |d| d.range(0, 9)) } else { vec![] };
+    Case { tasks, tua, analysis, blocking, limit, wrap, np_boost }
 }
 
 // --- scale equivariance (behaviour at large values) -----------------------------------------
@@ -516,7 +527,7 @@ fn exhaustive(tier: Tier, _seed: u64) -> ExtraResult {
                                         continue;
                                     }
                                     for limit in [LimitMode::Huge, LimitMode::AtL, LimitMode::BelowL] {
-                                        let c = Case { tasks: tasks.clone(), tua: 0, analysis, blocking: (a.wcet + b.deadline) % 3, limit, wrap: Wrap::Plain };
+                                        let c = Case { tasks: tasks.clone(), tua: 0, analysis, blocking: (a.wcet + b.deadline) % 3, limit, wrap: Wrap::Plain, np_boost: vec![] };
                                         evals += 1;
                                         match run_check(&check, &c) {
                                             Ok(o) => {
@@ -557,7 +568,7 @@ fn exhaustive(tier: Tier, _seed: u64) -> ExtraResult {
 pub fn def() -> PropertyDef {
     PropertyDef {
         id: "C06",
-        rule: "generated: task sets of 1-4 tasks (Periodic, Sporadic with J up to 4T, plain and extrapolating bursty delta-min curves incl. plateaus, jittered / propagated / summed models; T <= 60 quick / 150 thorough, WCET <= 9, equal priorities allowed, relative deadlines up to 3T, segment vectors, floating region lengths), the analysed task, one of the nine analyses, an arbitrary blocking bound, the way the RBFs are wrapped (plain / boxed / references; FIFO: Slice / Aggregate), and a limit mode (huge, = L, L-1, = max AF, max AF - 1, absolute). Oracle: the RBFs are tabulated as black boxes from the very objects handed to the analysis; L = least x in [1,limit] with x >= total(x); for EVERY offset A in [0,L) AF = least x with x >= rhs_A(x) by linear scan; result = max_A (AF -. A) + remaining cost; Err{offset 0, limit} iff some least solution does not exist within the limit. Exact equality of Ok/Err and value. Second sub-check (large values, where the naive scan cannot run): for the analyses whose equations contain no epsilon-sized constant (preemptive FP, floating FP with explicit blocking, preemptive EDF, FIFO) every time value incl. blocking and limit is multiplied by 10^3 / 65537 / 10^7 / 2^32+15 and the result must scale by exactly that factor (Err iff Err). Third sub-check (slow convergence): FIFO over unit-cost tasks with periods 2,4,..,2^k (k = 11..14) or 2,3,7,43 (utilisation 1 - 2^-k resp. 1 - 1/1806; costs and periods times 1..3; generated jitter), plus one heavy task, so that L is 10^4..7*10^5 and the standard iteration from 1 needs 10^3..5*10^4 steps; limits huge / = L / L-1; oracle: L by linear scan over the RBF objects, max over EVERY offset in [0,L) of total(A+1) - A; non-trivial there: the iteration needs more than 10^4 steps. Non-trivial: Err, or L larger than the analysed task's WCET (interference or blocking present, so non-step offsets are scanned). Distinct by case JSON.".into(),
+        rule: "generated: task sets of 1-4 tasks (Periodic, Sporadic with J up to 4T, plain and extrapolating bursty delta-min curves incl. plateaus, jittered / propagated / summed models; T <= 60 quick / 150 thorough, WCET <= 9, equal priorities allowed, relative deadlines up to 3T, segment vectors, floating region lengths - in a quarter of the cases also longer than the WCET, they are free parameters of the equations -), the analysed task, one of the nine analyses, an arbitrary blocking bound, the way the RBFs are wrapped (plain / boxed / references; FIFO: Slice / Aggregate), and a limit mode (huge, = L, L-1, = max AF, max AF - 1, absolute). Oracle: the RBFs are tabulated as black boxes from the very objects handed to the analysis; L = least x in [1,limit] with x >= total(x); for EVERY offset A in [0,L) AF = least x with x >= rhs_A(x) by linear scan; result = max_A (AF -. A) + remaining cost; Err{offset 0, limit} iff some least solution does not exist within the limit. Exact equality of Ok/Err and value. Second sub-check (large values, where the naive scan cannot run): for the analyses whose equations contain no epsilon-sized constant (preemptive FP, floating FP with explicit blocking, preemptive EDF, FIFO) every time value incl. blocking and limit is multiplied by 10^3 / 65537 / 10^7 / 2^32+15 and the result must scale by exactly that factor (Err iff Err). Third sub-check (slow convergence): FIFO over unit-cost tasks with periods 2,4,..,2^k (k = 11..14) or 2,3,7,43 (utilisation 1 - 2^-k resp. 1 - 1/1806; costs and periods times 1..3; generated jitter), plus one heavy task, so that L is 10^4..7*10^5 and the standard iteration from 1 needs 10^3..5*10^4 steps; limits huge / = L / L-1; oracle: L by linear scan over the RBF objects, max over EVERY offset in [0,L) of total(A+1) - A; non-trivial there: the iteration needs more than 10^4 steps. Non-trivial: Err, or L larger than the analysed task's WCET (interference or blocking present, so non-step offsets are scanned). Distinct by case JSON.".into(),
         assumptions: vec![
             "the analysed task releases at least one job (number_arrivals(1) >= 1); limits >= 1".into(),
             "last segment <= WCET, segments >= 1".into(),
